@@ -373,8 +373,8 @@ def run(prop, tier):
     ch = int(os.environ.get('HXVERIF_CHANNELS') or getattr(mod, 'CHANNELS', 0))
     if ch:
         cov['delivery_channel_differential'] = ('1 of every %d variable-binding evaluations repeated through the cell/range '
-                                                'listeners, 1 through custom functions (hash-selected); included in '
-                                                '"evaluations"' % max(2, ch))
+                                                'listeners, 1 through custom functions, 1 with every value an instance of a '
+                                                'trivial subclass of its type (hash-selected); included in "evaluations"' % max(3, ch))
     cov['harness_errors'] = len(harness)
     os.makedirs(os.path.join(OUT, 'evidence'), exist_ok=True)
     with open(os.path.join(OUT, 'evidence', '%s.json' % prop), 'w') as f:
